@@ -772,7 +772,7 @@ func (sh *c16Shape) build(prims []int, alphabet []string) *c16Script {
 func TestVerifC16(t *testing.T) {
 	r := ev.Start(t, "C16", "exploration")
 	maxT := r.Pick(3, 4)
-	r.Rule(fmt.Sprintf("all scripts with <= %d primitive actions in total from {A+1,A:=0,B+1,SET,DEL,EVT,BTP,STEP,XFER(nested real TransferHandler frame payer->B)} laid out as outer-before / one optional nested cc.Call frame / outer-after (every split), nested terminator and outer terminator each from {OK,REVERT(32),OOS(over-consume),INVALID,OOB(failing nested real transfer propagated)}, on 4 pre-state/transaction variants (quick: total <= 2 on all 4 variants, total = 3 on the first variant only and over {A:=0,SET,EVT,BTP,STEP,XFER}); a case = (variant, script); every case is a real signed call transaction executed by a real transition through transactionHandler/callContext/frames", maxT))
+	r.Rule(fmt.Sprintf("all scripts with <= %d primitive actions in total from {A+1,A:=0,B+1,SET,DEL,EVT,BTP,STEP,XFER(nested real TransferHandler frame payer->B)} laid out as outer-before / one optional nested cc.Call frame / outer-after (every split), nested terminator and outer terminator each from {OK,REVERT(32),OOS(over-consume),INVALID,OOB(failing nested real transfer propagated)}, on 4 pre-state/transaction variants {payer balance = stepLimit*price | large} x {step limit large | small}; total = 4 (thorough only) on the two opposite variants; (quick: total <= 2 on all 4 variants, total = 3 on the first variant only and over {A:=0,SET,EVT,BTP,STEP,XFER}); a case = (variant, script); every case is a real signed call transaction executed by a real transition through transactionHandler/callContext/frames", maxT))
 	r.Assume("the designated contract address runs a scripted contract.SyncContractHandler installed through a ContractManager wrapper (FixtureConfig.NewPlatform); everything else is real",
 		"reference for the expected world: the same machinery executing, in ONE frame, exactly the effects of the frames that returned success (metamorphic); payer/treasury balances are compared explicitly and zeroed before hashing",
 		"which frames failed is known to the harness because its own handler returns the errors; step accounting, frame snapshot/reset, receipts are goloop's",
@@ -808,11 +808,14 @@ func TestVerifC16(t *testing.T) {
 			if r.Quick() && sh.t == 3 && vi != 0 {
 				continue
 			}
+			if sh.t == 4 && vi != 0 && vi != 3 {
+				continue // thorough: total = 4 on the two opposite variants only
+			}
 			chunks = append(chunks, chunk{vi, sh})
 		}
 	}
-	// larger chunks first (better balance)
-	sort.SliceStable(chunks, func(i, j int) bool { return chunks[i].sh.t > chunks[j].sh.t })
+	// short scripts first: a capped run has then seen every outcome class and all of total <= 3
+	sort.SliceStable(chunks, func(i, j int) bool { return chunks[i].sh.t < chunks[j].sh.t })
 
 	pool := make(chan *c16Ctx, 64)
 	var made []*c16Ctx
